@@ -110,6 +110,7 @@ pub struct Recorder {
     // lock bookkeeping
     pub held: BTreeMap<usize, Vec<(usize, &'static str)>>,
     pub waiting: BTreeMap<usize, (usize, &'static str)>,
+    pub lock_owner: BTreeMap<usize, usize>,
     pub lock_edges: BTreeMap<(&'static str, &'static str), u64>,
     pub lock_ops: u64,
     // counters / probes
@@ -146,6 +147,7 @@ impl Recorder {
             driver_waiting: false,
             held: BTreeMap::new(),
             waiting: BTreeMap::new(),
+            lock_owner: BTreeMap::new(),
             lock_edges: BTreeMap::new(),
             lock_ops: 0,
             counters: BTreeMap::new(),
@@ -247,16 +249,17 @@ pub fn session_of_current_task() -> u32 {
     with(|r| r.task_session.get(&t).copied().unwrap_or(0))
 }
 
-/// Human readable description of what every task holds / waits for; used for deadlock signatures.
-pub fn lock_state() -> Vec<(usize, String, Vec<&'static str>, Option<&'static str>)> {
+/// What every task holds / waits for: (task, name, held [(lock id, class)], wanted (lock id, class, owner task)).
+#[allow(clippy::type_complexity)]
+pub fn lock_state() -> Vec<(usize, String, Vec<(usize, &'static str)>, Option<(usize, &'static str, Option<usize>)>)> {
     with(|r| {
         let mut tasks: BTreeSet<usize> = r.held.keys().copied().collect();
         tasks.extend(r.waiting.keys().copied());
         tasks
             .into_iter()
             .filter_map(|t| {
-                let held: Vec<&'static str> = r.held.get(&t).map(|v| v.iter().map(|x| x.1).collect()).unwrap_or_default();
-                let w = r.waiting.get(&t).map(|x| x.1);
+                let held: Vec<(usize, &'static str)> = r.held.get(&t).cloned().unwrap_or_default();
+                let w = r.waiting.get(&t).map(|x| (x.0, x.1, r.lock_owner.get(&x.0).copied()));
                 if held.is_empty() && w.is_none() {
                     None
                 } else {
